@@ -37,18 +37,26 @@ class UseGenerator(SimpleCodemod, NameResolutionMixin):
                     match original_node.args[0].value:
                         case cst.ListComp(elt=elt, for_in=for_in):
                             self.add_change(original_node, self.change_description)
+                            # Keep the remaining arguments (`start`, `key`, `default`)
+                            first_arg, *other_args = updated_node.args
+                            generator = cst.GeneratorExp(
+                                elt=elt,  # type: ignore
+                                for_in=for_in,  # type: ignore
+                                # A sole argument needs no parentheses: the call's own
+                                # are enough. Next to other arguments they are required
+                                lpar=[cst.LeftParen()] if other_args else [],
+                                rpar=[cst.RightParen()] if other_args else [],
+                            )
                             return updated_node.with_changes(
                                 args=[
-                                    cst.Arg(
-                                        value=cst.GeneratorExp(
-                                            elt=elt,  # type: ignore
-                                            for_in=for_in,  # type: ignore
-                                            # No parens necessary since they are
-                                            # already included by the call expr itself
-                                            lpar=[],
-                                            rpar=[],
-                                        )
-                                    )
+                                    (
+                                        first_arg.with_changes(value=generator)
+                                        if other_args
+                                        # a fresh Arg drops a trailing comma, which is
+                                        # not allowed after a bare generator expression
+                                        else cst.Arg(value=generator)
+                                    ),
+                                    *other_args,
                                 ],
                             )
 
